@@ -24,6 +24,8 @@ KNOWN_FILE = os.path.join(VERIF, "known_findings.json")
 
 
 def load_known():
+    if os.environ.get("VERIF_IGNORE_KNOWN"):
+        return []      # tooling only (tools/regen_*): produce replay files for listed findings
     try:
         with open(KNOWN_FILE) as f:
             return json.load(f).get("findings", [])
@@ -97,7 +99,7 @@ def minimise(check, case, clause, budget_s=90):
     progress = True
     while progress and boot.real_monotonic() < t_end:
         progress = False
-        for key in ("faults", "ops"):
+        for key in ("faults", "muts", "ops"):
             lst = best.get(key)
             if not isinstance(lst, list) or not lst:
                 continue
@@ -247,7 +249,7 @@ def main(argv=None):
             known_lines.add("KNOWN-FINDING: property=%s %s" % (prop, k.get("what", sig)))
             continue
         new_viol += 1
-        if new_viol > 3:
+        if new_viol > 5:
             print("  (also) clause=%s sig=%s seeds=%s" % (clause, sig, [x["seed"] for x in rs[:5]]))
             continue
         r = min(rs, key=lambda r: len(json.dumps(r.get("case"), default=_jsondefault)))
